@@ -67,6 +67,15 @@ def cases(tier, seed, shard, nshards):
                 if (tier != "quick" or k % 7 == 0 or (rewriter and own)) and spec[2] not in ("render", "str", "hash"):
                     # (A's result is the receiver of B here, so A must return a builder: str.join(Table) would iterate forever)
                     yield {"k": "pair", "d": d, "spec": spec, "chain": True}
+    # the builder calls every term class inherits (as_, replace_table, negate ...) on one object per class of the zoo, on leaf
+    # classes and on the module-level constants (pseudo columns)
+    from .c15 import zoo_subjects
+    from ..prog import registry
+    names = sorted(zoo_subjects()) + ["const:" + k_ for k_, v_ in sorted(registry().items()) if isinstance(v_, registry()["Term"])]
+    for lab in names:
+        k += 1
+        if k % nshards == shard:
+            yield {"k": "term-builders", "label": lab}
     n = (2400 if tier == "quick" else 160000) // nshards
     rnd = random.Random("C01:%d:%d" % (seed, shard))
     for i in range(n):
@@ -334,9 +343,61 @@ def run_pair(case, mon):
         mon.nontrivial(phash(prog))
 
 
+_subjects = None
+
+
+def run_term_builders(case, mon):
+    """as_ / replace_table / negate / slicing on one object: a new object each time, the receiver and the first result unchanged."""
+    global _subjects
+    from ..prog import registry
+    reg = registry()
+    if _subjects is None:
+        from .c15 import zoo_subjects
+        _subjects = zoo_subjects()
+    t, t9 = reg["Table"]("tz"), reg["Table"]("tz9")
+    lab = case["label"]
+    try:
+        o = reg[lab[6:]] if lab.startswith("const:") else _subjects[lab](t)
+    except Exception:
+        mon.count("term_builders_unbuildable")
+        return
+    f0 = F(o)
+    calls = [("as_", ("zz1",), ("zz2",)), ("replace_table", (t, t9), (t, reg["Table"]("tz8"))), ("negate", (), ()), ("__getitem__", (slice(None, None),), (slice(1, 5),))]
+    for name, a1, a2 in calls:
+        m = getattr(type(o), name, None)
+        if m is None or not callable(m):
+            continue
+        if name == "__getitem__" and not isinstance(o, reg["QueryBuilder"]):
+            continue
+        try:
+            x = getattr(o, name)(*a1)
+            fx = F(x) if hasattr(x, "get_sql") else None
+            y = getattr(o, name)(*a2)
+        except Exception:
+            mon.count("term_builder_calls_rejected")
+            continue
+        mon.count("term_builder_calls")
+        mon.add("term_builder_cells", "%s.%s" % (type(o).__name__, name))
+        key = "%s.%s" % (defining_class(o, name).__name__ if defining_class(o, name) else type(o).__name__, name)
+        # (Term.replace_table is a documented no-op that hands back terms without tables; slicing wraps the builder method slice())
+        if (x is o or y is o) and getattr(o, "immutable", True) and (is_builder_method(o, name) or name == "__getitem__"):
+            mon.violation("term-builders:%s:returns-receiver" % key, "%s on %s returned the receiver itself" % (name, lab))
+            return
+        if F(o) != f0:
+            d = fdiff(F(o), f0)
+            mon.violation("term-builders:%s:receiver:%s" % (key, ",".join(d[:2])), "%s(%r) on %s changed the receiver in %s" % (name, a1, lab, d[:3]))
+            return
+        if fx is not None and F(x) != fx:
+            mon.violation("term-builders:%s:earlier-result" % key, "the second %s call on %s changed the result of the first" % (name, lab))
+            return
+    mon.nontrivial(["term-builders", lab])
+
+
 def run_case(case, mon):
     if case["k"] == "exempt":
         return run_exempt(case, mon)
+    if case["k"] == "term-builders":
+        return run_term_builders(case, mon)
     if case["k"] == "pair":
         return run_pair(case, mon)
     prog = case["prog"]
@@ -401,4 +462,4 @@ def FLOORS(tier):
 
 
 def describe(case):
-    return show(case["prog"])
+    return show(case["prog"]) if "prog" in case else str(case)
